@@ -128,7 +128,7 @@ func rtNoWatch(c *Ctx, n int) {
 		p := dials.Params[RC]{SkipInitialVerification: skipInit, DelayInitialVerification: delay, CallGlobalCallbacksAfterVerificationEnabled: suppress}
 		cs := map[string]any{"stream": "no-watching-source", "params": fmt.Sprintf("skipInit=%v delay=%v suppress=%v", skipInit, delay, suppress), "init": init}
 		var impl string
-		d, err := p.Config(context.Background(), &RC{}, srcs...)
+		d, err := p.Config(context.Background(), &RC{N: &RCN{}}, srcs...)
 		before := len(r.verifyCalls)
 		if err != nil {
 			impl = "configErr " + r.errClass(err)
@@ -228,10 +228,28 @@ func rtOracle(r *rtRun, prop string) []string {
 		serialOf[in.ptr] = in.serial
 		cfgOfSerial[in.serial] = in.ptr
 	}
+	if prop == "C04" || prop == "C05" {
+		// every version ever rendered (views, callbacks, events, verify) is re-rendered at the end as well:
+		// an installed version must not change after the fact
+		for _, in := range r.installs {
+			if in.ptr != nil {
+				if now := r.cfgStr(in.ptr); now != in.cfg {
+					bad("installed version %d was %s when it was stored and reads %s at the end of the run", in.serial, in.cfg, now)
+				}
+			}
+		}
+		if r.initPtr != nil {
+			_ = r.cfgStr(r.initPtr)
+		}
+		if len(r.mirrorBad) > 0 {
+			bad("an observable config is not the stack of any source values (memory shared between versions was written to): %s", r.mirrorBad[0])
+		}
+	}
 	switch prop {
 	case "C04":
 		for _, in := range r.installs {
-			if !in.skip && !slotsValid(in.cfg) {
+			// without DelayInitialVerification the monitor verifies every re-stack, whatever it believes itself
+			if (!in.skip || !r.cfg.delay) && !slotsValid(in.cfg) {
 				bad("version %d (%s) was installed while verification was active but does not verify", in.serial, in.cfg)
 			}
 			if strings.Contains(in.cfg, "-") {
@@ -431,6 +449,13 @@ func rtBlockingOracle(r *rtRun) []string {
 		case "nil":
 			if u == nil || u.outcome != "installed" {
 				bad("blocking report src=%d v=%d returned nil but its value was not installed", ret.op.Src, ret.op.V)
+			} else if !r.cfg.delay {
+				// verification is in force from the start: a nil answer means the stacked config verified
+				for _, in := range r.installs {
+					if in.serial == u.serial && !slotsValid(in.cfg) {
+						bad("blocking report src=%d v=%d returned nil although the stacked config %s does not verify (no delayed verification configured)", ret.op.Src, ret.op.V, in.cfg)
+					}
+				}
 			}
 		case "stackErr", "verifyErr":
 			if u == nil || u.outcome != ret.res {
@@ -580,10 +605,7 @@ type rtStatic struct {
 }
 
 func (s *rtStatic) Value(_ context.Context, t *dials.Type) (reflect.Value, error) {
-	out := reflect.New(t.Type())
-	vv := s.v
-	out.Elem().Field(s.idx).Set(reflect.ValueOf(&vv))
-	return out, nil
+	return (&rtSource{idx: s.idx}).valueFor(t, s.v), nil
 }
 
 func rtFreshCompare(r *rtRun) []string {
@@ -612,7 +634,7 @@ func rtFreshCompare(r *rtRun) []string {
 	save := rtCur
 	rtCur = nil
 	defer func() { rtCur = save }()
-	fresh, err := dials.Params[RC]{SkipInitialVerification: true}.Config(context.Background(), &RC{}, srcs...)
+	fresh, err := dials.Params[RC]{SkipInitialVerification: true}.Config(context.Background(), &RC{N: &RCN{}}, srcs...)
 	if err != nil {
 		return []string{"fresh Config over the latest values failed: " + err.Error()}
 	}
